@@ -177,7 +177,7 @@ func runCell(r *vh.Run, c h2term.Cell) {
 	for attempt := 0; attempt < attemptsPerCell; attempt++ {
 		var res *h2term.Result
 		if strings.HasPrefix(c.State, "proxy-") {
-			res = h2term.RunProxyCell(c, r.Rng("c10", c.Idx), budget)
+			res = h2term.RunProxyCell(c, r.Rng("c10", c.Idx), budget, attempt)
 		} else {
 			res = h2term.RunCell(c, r.Rng("c10", c.Idx), budget)
 		}
@@ -216,6 +216,8 @@ func runCell(r *vh.Run, c h2term.Cell) {
 				}
 			case "delay_marker":
 				r.Count("marker:"+fmt.Sprint(v), 1)
+			case "proxy_timeout":
+				r.Count("via_proxy_timeout:"+fmt.Sprint(v), 1)
 			}
 		}
 		var sigs []string
